@@ -161,6 +161,12 @@ pub mod l1 {
     pub broadcast proof fn ax_min(a: f64, b: f64)
         ensures f_is_nan(a) ==> #[trigger] f_fmin(a, b) == b,
                 !f_is_nan(a) && !f_is_nan(b) ==> (f_fmin(a, b) == a || f_fmin(a, b) == b) && rv(f_fmin(a, b)) <= rv(a) && rv(f_fmin(a, b)) <= rv(b) {}
-    pub broadcast group l1_minmax { ax_nan_is_nan, ax_max, ax_min }
+    pub uninterp spec fn f_neg_inf() -> f64;
+    #[verifier::external_body]
+    pub fn c_neg_infinity() -> (r: f64) ensures r == f_neg_inf() { f64::NEG_INFINITY }
+    // max(-inf, b) = b for every non-NaN b (IEEE maxNum); -inf has no real value at L1
+    #[verifier::external_body]
+    pub broadcast proof fn ax_max_neg_inf(b: f64) ensures !f_is_nan(b) ==> #[trigger] f_fmax(f_neg_inf(), b) == b {}
+    pub broadcast group l1_minmax { ax_nan_is_nan, ax_max, ax_min, ax_max_neg_inf }
     }
 }
